@@ -44,6 +44,8 @@ type lifeRun struct {
 	open   []*CtlConn
 	nextID int
 	viol   []string // class\x00detail
+	// noDeadline: the service under test was started without an idle timeout (its loop never calls SetDeadline)
+	noDeadline bool
 }
 
 func (lr *lifeRun) fail(class, format string, a ...interface{}) {
@@ -180,6 +182,61 @@ func (lr *lifeRun) step(s string, cancelled *bool) {
 			lr.waitClosed(c, "its handler returned an error")
 			c.client.Close()
 			lr.dropOpen(c)
+		}
+	case "ccsd":
+		// a connection is accepted, and while the accept loop is on its way back into Accept - inside its next SetDeadline
+		// call, before that deadline lands - the client closes and the service releases the connection
+		lr.L.mu.Lock()
+		ever := lr.L.everArmed
+		lr.L.mu.Unlock()
+		if lr.noDeadline || !ever {
+			// no SetDeadline call to ride on (this loop has never armed a deadline): the connection simply comes and goes
+			if c := lr.connect(true); c != nil && !*cancelled {
+				c.client.Close()
+				lr.waitClosed(c, "client closed it")
+			}
+			return
+		}
+		ch := make(chan *CtlConn, 1)
+		fired := make(chan struct{})
+		lr.L.mu.Lock()
+		lr.L.hookSetDeadlineBefore = func() {
+			defer close(fired)
+			select {
+			case c := <-ch:
+				before := lr.svc.VerifActive() // the loop has counted this connection already
+				c.client.Close()
+				dl := time.Now().Add(lifeBound)
+				for !c.Closed() && time.Now().Before(dl) {
+					time.Sleep(30 * time.Microsecond)
+				}
+				for before > 0 && lr.svc.VerifActive() >= before && time.Now().Before(dl) {
+					time.Sleep(30 * time.Microsecond)
+				}
+				time.Sleep(200 * time.Microsecond)
+			case <-time.After(lifeBound):
+			}
+		}
+		lr.L.mu.Unlock()
+		lr.nextID++
+		c, err := lr.L.NewConn(lr.nextID, lr.h.Socketpair)
+		if err != nil {
+			return
+		}
+		lr.conns = append(lr.conns, c)
+		ch <- c
+		select {
+		case <-fired:
+			lr.r.Count("connections_closed_inside_set_deadline", 1)
+		case <-time.After(lifeBound):
+			// a loop that does not call SetDeadline after an accept (no timeout requested): the connection is simply closed
+			lr.L.mu.Lock()
+			lr.L.hookSetDeadlineBefore = nil
+			lr.L.mu.Unlock()
+		}
+		if !*cancelled {
+			c.client.Close()
+			lr.waitClosed(c, "client closed it")
 		}
 	case "junk":
 		// a frame that is not a call: the service ends the connection without a reply
